@@ -16,6 +16,7 @@ import (
 	"path/filepath"
 	"strings"
 	"syscall"
+	"time"
 
 	api "github.com/polydawn/go-timeless-api"
 	"github.com/polydawn/go-timeless-api/rio"
@@ -614,14 +615,115 @@ func brokenHTTP() string {
 	return brokenSrv.URL
 }
 
+// cliCancel: the user interrupts (SIGINT) a running operation — a scan / unpack / mirror whose warehouse is still
+// sending — and the transfer then goes on: the process ends within seconds, with an exit code of the documented table
+// (the operation was cancelled, or it completed), never hanging with nothing said. Recipe: "cli-cancel <scan|unpack|mirror> <fmt>".
+func cliCancel(c *Ctx, op string) {
+	c.Begin(op)
+	f := strings.Fields(op)
+	what, format := f[1], f[2]
+	bin := os.Getenv("RIO_BIN")
+	c.EmitR(op, "skip", "skip")
+	if bin == "" {
+		return
+	}
+	caseCounter++
+	base := filepath.Join(c.Work, fmt.Sprintf("clc%d", caseCounter))
+	defer rmrf(base)
+	os.MkdirAll(filepath.Join(base, "src", "d"), 0755)
+	os.MkdirAll(filepath.Join(base, "wh"), 0755)
+	os.MkdirAll(filepath.Join(base, "wh2"), 0755)
+	os.WriteFile(filepath.Join(base, "src", "d", "f"), bytes.Repeat([]byte("cancel me "), 5000), 0644)
+	env := append(os.Environ(), "RIO_CACHE="+filepath.Join(base, "cache"), "RIO_BASE="+filepath.Join(base, "riobase"))
+	pk := exec.Command(bin, "pack", "tar", filepath.Join(base, "src"), "--target=file://"+filepath.Join(base, "wh", "ware.tgz"))
+	pk.Env = env
+	out, err := pk.Output()
+	id := strings.TrimSpace(string(out))
+	ware, _ := os.ReadFile(filepath.Join(base, "wh", "ware.tgz"))
+	if err != nil || id == "" || len(ware) < 100 {
+		return
+	}
+	release := make(chan struct{})
+	started := make(chan struct{}, 4)
+	nreq := 0
+	if len(f) > 3 && f[3] == "mid" {
+		nreq = 1
+	}
+	srv := httptest.NewServer(http.HandlerFunc(func(w http.ResponseWriter, r *http.Request) {
+		// odd requests: the warehouse takes its time before it says anything; even ones: it stalls in mid-transfer
+		nreq++
+		w.Header().Set("Content-Length", fmt.Sprint(len(ware)))
+		if nreq%2 == 0 {
+			w.Write(ware[:50])
+			if fl, ok := w.(http.Flusher); ok {
+				fl.Flush()
+			}
+		}
+		started <- struct{}{}
+		<-release
+		if nreq%2 == 0 {
+			w.Write(ware[50:])
+		} else {
+			w.Write(ware)
+		}
+	}))
+	defer srv.Close()
+	var args []string
+	switch what {
+	case "scan":
+		args = []string{"--format=" + format, "scan", "tar", "--source=" + srv.URL + "/ware.tgz"}
+	case "unpack":
+		args = []string{"--format=" + format, "unpack", id, filepath.Join(base, "dst"), "--placer=direct", "--source=" + srv.URL + "/ware.tgz"}
+	case "mirror":
+		args = []string{"--format=" + format, "mirror", id, "--target=ca+file://" + filepath.Join(base, "wh2"), "--source=" + srv.URL + "/ware.tgz"}
+	}
+	cmd := exec.Command(bin, args...)
+	cmd.Env = env
+	var so, se bytes.Buffer
+	cmd.Stdout, cmd.Stderr = &so, &se
+	if cmd.Start() != nil {
+		close(release)
+		return
+	}
+	select {
+	case <-started:
+	case <-time.After(5 * time.Second):
+	}
+	time.Sleep(200 * time.Millisecond)
+	cmd.Process.Signal(syscall.SIGINT)
+	time.Sleep(300 * time.Millisecond)
+	close(release)
+	done := make(chan error, 1)
+	go func() { done <- cmd.Wait() }()
+	select {
+	case <-done:
+		code := cmd.ProcessState.ExitCode()
+		c.H(fmt.Sprintf("cli-cancel:%s:%s:exit=%d", what, format, code))
+		if code < 0 || code > 14 {
+			c.PropFail("cli-undocumented-exit", fmt.Sprintf("an interrupted %s exited with code %d", what, code), op)
+		}
+	case <-time.After(6 * time.Second):
+		cmd.Process.Kill()
+		<-done
+		c.H("cli-cancel:" + what + ":" + format + ":hang")
+		c.PropFail("cli-no-result", fmt.Sprintf("rio %s was interrupted (SIGINT) while its warehouse was still sending; the transfer then completed, and six seconds later the process is still there, having said nothing (stdout %q, stderr %q)", what, so.String(), se.String()), op)
+	}
+	c.Distinct(op)
+}
+
 func cliEngine(c *Ctx) {
 	if ls := replayLines(); ls != nil {
 		for _, op := range ls {
 			if strings.HasPrefix(op, "cli ") {
 				cliExec(c, op)
+			} else if strings.HasPrefix(op, "cli-cancel ") {
+				cliCancel(c, op)
 			}
 		}
 		return
+	}
+	for _, w := range []string{"scan dumb", "unpack dumb mid", "mirror json", "scan json mid", "unpack json", "mirror dumb mid"} {
+		cliCancel(c, "cli-cancel "+w)
 	}
 	mk := func(args ...string) string {
 		var hs []string
